@@ -237,6 +237,16 @@ Local Close Scope Z_scope.
    environment, binds a variable the first time it is met and compares with the
    existing binding afterwards, and leaves the bindings made so far in place when a
    later part fails.  og = "OptionGuard" mode with the bool quirk. *)
+Section PmList.
+  Context (f : pat -> value -> env -> bool * env).
+  (* element-wise matching of a pattern list against a value list (stops at the shorter) *)
+  Fixpoint pm_list_with (ps : list pat) (vs : list value) (e : env) {struct ps} : bool * env :=
+    match ps, vs with
+    | p1 :: ps', v1 :: vs' => let (b, e') := f p1 v1 e in if b then pm_list_with ps' vs' e' else (false, e')
+    | _, _ => (true, e)
+    end.
+End PmList.
+
 Fixpoint pm (og : bool) (p : pat) (v : value) (e : env) {struct p} : bool * env :=
   match p with
   | PWild => (true, e)
@@ -299,12 +309,7 @@ Fixpoint pm (og : bool) (p : pat) (v : value) (e : env) {struct p} : bool * env 
       end
   end.
 
-(* element-wise matching of a pattern list against a value list (stops at the shorter) *)
-Fixpoint pm_list (og : bool) (ps : list pat) (vs : list value) (e : env) {struct ps} : bool * env :=
-  match ps, vs with
-  | p1 :: ps', v1 :: vs' => let (b, e') := pm og p1 v1 e in if b then pm_list og ps' vs' e' else (false, e')
-  | _, _ => (true, e)
-  end.
+Definition pm_list (og : bool) : list pat -> list value -> env -> bool * env := pm_list_with (pm og).
 
 (* what the specification calls "pattern p matches value v, binding env" *)
 Definition pmatch (p : pat) (v : value) : option env :=
